@@ -31,6 +31,20 @@ type C15Case struct {
 	WS   *gen.Workspace `json:"ws"`
 	Root bool           `json:"root"`
 	Open []int          `json:"open"` // files opened as documents (>=2 when possible)
+	// Staged: main.journal is on disk (and is first opened) without its include directives; a change
+	// then brings the buffer to its full text, so that all its includes join the workspace at once
+	Staged bool `json:"staged,omitempty"`
+}
+
+func c15WithoutIncludes(j *m.Journal) *m.Journal {
+	nj := &m.Journal{NL: j.NL}
+	for _, e := range j.Entries {
+		if e.Dir != nil && e.Dir.Kind == "include" {
+			continue
+		}
+		nj.Entries = append(nj.Entries, e)
+	}
+	return nj
 }
 
 // c15Battery runs every request on a fresh server and returns one canonical string per answer.
@@ -47,7 +61,11 @@ func c15Battery(c *C15Case, dir string) ([]string, []string, error) {
 		disk = append(disk, r)
 		p := filepath.Join(dir, f.Rel)
 		uris = append(uris, "file://"+p)
-		if err := os.WriteFile(p, []byte(r.Text), 0o644); err != nil {
+		txt := r.Text
+		if c.Staged && len(disk) == 1 {
+			txt = m.Render(c15WithoutIncludes(f.Journal)).Text
+		}
+		if err := os.WriteFile(p, []byte(txt), 0o644); err != nil {
 			return nil, nil, err
 		}
 	}
@@ -60,12 +78,24 @@ func c15Battery(c *C15Case, dir string) ([]string, []string, error) {
 		return nil, nil, err
 	}
 	for _, fi := range c.Open {
-		if err := h.Open(uris[fi], disk[fi].Text); err != nil {
+		txt := disk[fi].Text
+		if c.Staged && fi == 0 {
+			txt = m.Render(c15WithoutIncludes(c.WS.Files[0].Journal)).Text
+		}
+		if err := h.Open(uris[fi], txt); err != nil {
 			return nil, nil, err
 		}
 	}
 	if err := h.Quiesce(); err != nil {
 		return nil, nil, err
+	}
+	if c.Staged {
+		if err := h.Change(uris[0], 2, []refclient.Change{{Text: disk[0].Text}}); err != nil {
+			return nil, nil, err
+		}
+		if err := h.Quiesce(); err != nil {
+			return nil, nil, err
+		}
 	}
 	put := func(label string, v any, err error) {
 		b, _ := json.Marshal(v)
@@ -201,6 +231,7 @@ func genC15(t *rapid.T, p *gen.Profile) *C15Case {
 	if len(ws.Files) > 2 && rapid.Bool().Draw(t, "open3") {
 		c.Open = append(c.Open, 2)
 	}
+	c.Staged = rapid.IntRange(0, 2).Draw(t, "staged") == 0
 	return c
 }
 
